@@ -5,7 +5,8 @@
 //
 // scenario lines (keys are numbers; key i is named "k<i>" unless a `name` line gives it other bytes):
 //   name <i> <hex>
-//   rule <k> sig=<n> obs=<0|1> req=a,b single=c follow=d br=<slot>:<a,b>:<c,d> disc=e     (takes effect at the next engine instance)
+//   rule <k> sig=<n> obs=<0|1> req=a,b single=c follow=d br=<slot>:<a,b>:<c,d> disc=e ord=<perm of rsf>    (takes effect at the next engine instance;
+//                                    ord: order in which request / requestSingleUse / mustFollow are CALLED, slot ids stay req first then single)
 //   set <k> <n>                      external state
 //   db <0|1|2>                       following engine instances attach a SQLite database in <workdir>/build.db (default 0; 1 removes an
 //                                    existing file first, 2 keeps it);  recreate <0|1>: recreateUnmatchedVersion flag (default 1)
@@ -33,7 +34,7 @@ using namespace llbuild::core;
 extern "C" { extern void (*llbuild_verif_engine_hook)(int point, const void* data); }
 
 struct RuleDef {
-  uint64_t sig = 0; bool obs = true; std::vector<int> req, single, follow, brA, brB, disc; int brslot = -1; bool defined = false;
+  uint64_t sig = 0; bool obs = true; std::vector<int> req, single, follow, brA, brB, disc; int brslot = -1; bool defined = false; std::string ord = "rsf";
 };
 static std::map<int, RuleDef> g_pending, g_defs;     // pending: as written so far; defs: snapshot seen by the current engine
 static std::map<int, uint64_t> g_env;
@@ -119,9 +120,16 @@ struct DTask : Task {
   }
   void start(TaskInterface ti) override {
     ev("start %d", k); count_cb();
-    for (int r : d.req) req(ti, r, false);
-    for (int r : d.single) req(ti, r, true);
-    for (int r : d.follow) ti.mustFollow(kname(r));
+    // slot ids are fixed by kind (requests first, then single-use), the ORDER of the API calls follows d.ord
+    // ("rsf" = request, requestSingleUse, mustFollow; any permutation): the engine records dependencies in call order
+    size_t nreq = d.req.size(), nsingle = d.single.size();
+    slots.assign(nreq + nsingle, Val()); single.assign(nreq + nsingle, false);
+    for (size_t j = 0; j < nsingle; j++) single[nreq + j] = true;
+    for (char c : d.ord) {
+      if (c == 'r') for (size_t i = 0; i < nreq; i++) ti.request(kname(d.req[i]), i);
+      else if (c == 's') for (size_t j = 0; j < nsingle; j++) ti.requestSingleUse(kname(d.single[j]), nreq + j);
+      else if (c == 'f') for (int r : d.follow) ti.mustFollow(kname(r));
+    }
   }
   void providePriorValue(TaskInterface, const ValueType& v) override { ev("prior %d %s", k, vs(v).c_str()); count_cb(); }
   void provideValue(TaskInterface ti, uintptr_t id, const KeyType& key, const ValueType& v) override {
@@ -272,6 +280,7 @@ int main(int argc, char** argv) {
         if (a == "sig") d.sig = strtoull(b.c_str(), 0, 10); else if (a == "obs") d.obs = b == "1";
         else if (a == "req") d.req = ints(b); else if (a == "single") d.single = ints(b); else if (a == "follow") d.follow = ints(b);
         else if (a == "disc") d.disc = ints(b);
+        else if (a == "ord" && b.size() == 3) d.ord = b;
         else if (a == "br") { SV p = split(b, ':'); d.brslot = atoi(p[0].c_str()); d.brA = ints(p.size() > 1 ? p[1] : ""); d.brB = ints(p.size() > 2 ? p[2] : ""); }
       }
       g_pending[k] = d;
